@@ -266,12 +266,14 @@ def check_path(p, d):
     fails = []
     segs = list(p.asSegments())
     before = (repr(p.asSegments()), p.closed)
+    origs_before = [(s_, getattr(s_, '_orig', None)) for s_ in segs]       # edges of an earlier flatten() remember their curve: flattening again must not touch that
     inp = {'d': d}
     try:
         fl = p.flatten(d)
     except Exception as e:
         return [fail('C17-exception', f'path.flatten({d!r}) raised {type(e).__name__}: {e}', p, inp, repr(e), 'no exception')]
     if (repr(p.asSegments()), p.closed) != before: fails.append(fail('C17-purity', 'the path was modified by flatten', p, inp, None, None))
+    if any(getattr(s_, '_orig', None) is not o_ for s_, o_ in origs_before): fails.append(fail('C17-purity', 'flatten changed the recorded origin (_orig) of a segment of the path it was called on', p, inp, None, None))
     es = fl.asSegments()
     if fl.closed != p.closed: fails.append(fail('C17-path-closed', f'closed flag {p.closed} became {fl.closed}', p, inp, fl.closed, p.closed))
     # concatenation of the per-segment results, in order
